@@ -114,7 +114,9 @@ Definition index_of_listed (sp : file_spec) (name : bytes) : option N :=
   let infix := if has_name_part sp then Some (after_last [uscore; r_char] stem) else str_from stem 1 in
   match infix with
   | None => None
-  | Some i => Some (match parse_uint u32_max i with Some v => v | None => 0 end)
+  | Some i => (* the number ends at the first dot: the stem of a compressed file still carries the suffix *)
+              let digits := match find_byte dot i with Some e => firstn e i | None => i end in
+              Some (match parse_uint u32_max digits with Some v => v | None => 0 end)
   end.
 
 Fixpoint max_opt (l : list N) : option N :=
